@@ -74,4 +74,7 @@ fn merge_deduplicate<'a, T: VecData<T> + 'a, C: Comparator<T>>(left: &[T], right
     (result, ops)
 }
 
-
+#[cfg(feature = "verif")]
+pub fn verif_merge_deduplicate_i64(left: &[i64], right: &[i64]) -> (Vec<i64>, Vec<MergeOp>) {
+    merge_deduplicate::<i64, CmpLessThan>(left, right)
+}
